@@ -8,6 +8,9 @@ open Lean DU Assertion
           specs [{kind: alwaysProto|eventuallyProto, T, pred: [[value per node] per iteration]} |
                  {kind: alwaysSim|eventuallySim, pred: [value per iteration]}]
   output: executed, verdict ("passed" | "failedAtEnd" | ["failedAfter", i])
+  A batch of simulations that are handed the same decorated assertions (each AssertionHandler instantiates
+  its own test cases, `Spec.init`, so the runs do not influence each other whatever the order in which they
+  are built, stepped and finished): input {runs: [<input as above>, …]}, output {runs: [<output>, …]}.
 -/
 namespace AssertionDriver
 
@@ -28,7 +31,7 @@ def specOfJson (j : Json) : Except String Spec := do
     pure (if kind == "alwaysSim" then .alwaysSim pred else .eventuallySim pred)
   | _ => throw s!"unknown assertion kind {kind}"
 
-def run (j : Json) : Except String Json := do
+def runOne (j : Json) : Except String Json := do
   let n ← (← field j "n").getNat?
   let ptypes ← (← (← field j "ptypes").getArr?).mapM (·.getNat?)
   let N ← (← field j "N").getNat?
@@ -41,5 +44,12 @@ def run (j : Json) : Except String Json := do
     | .failedAtEnd => Json.str "failedAtEnd"
     | .failedAfter i => Json.arr #["failedAfter", toJson i]
   pure (Json.mkObj [("executed", toJson res.executed), ("verdict", verdict)])
+
+def run (j : Json) : Except String Json :=
+  match j.getObjVal? "runs" with
+  | .ok rs => do
+    let outs ← (← rs.getArr?).mapM runOne
+    pure (Json.mkObj [("runs", Json.arr outs)])
+  | .error _ => runOne j
 
 end AssertionDriver
